@@ -255,6 +255,14 @@ impl Schedule {
     }
 }
 
+/// `vehicle_ok` for one vehicle, as far as it speaks about the vehicle's own tour
+pub proof fn lemma_vehicle_ok_facts(s: &Schedule, v: VehicleIdx)
+    requires s.vehicle_ok(v),
+    ensures
+        s.tours@[v].wf(), !s.tours@[v].is_dummy, *s.tours@[v].network == *s.network, s.tours@[v].caches_ok(), tour_len_ok(s.tours@[v].nodes@),
+        s.next_period_transitions@.contains_key(s.type_of(v)),
+{
+}
 /// what a valid schedule provides for a real vehicle and its tour
 pub proof fn lemma_rd_provider(s: &Schedule, v: VehicleIdx)
     requires s.rs_ok(), s.vehicles@.contains_key(v),
@@ -269,11 +277,16 @@ pub proof fn lemma_rd_provider(s: &Schedule, v: VehicleIdx)
         sorted_cmp(s.dummy_ids_sorted@),
         s.vehicle_counter <= 0xffff ==> !s.dummy_tours@.contains_key(s.next_dummy_id()),
         s.next_period_transitions@.contains_key(s.type_of(v)),
-        s.ids_ok(),
+        s.ids_ok(), s.transitions_ok(), s.formations_ok(),
 {
+    // (sched_ok says that every vehicle in a rotation cycle has a tour and every vehicle with a tour is in a rotation
+    // cycle: only the instance for v is unfolded)
+    hide(Schedule::vehicle_ok);
     let vs = sched_vehicles(s);
     assert(s.tours@.contains_key(v));
     assert(s.vehicle_ok(v));
+    let t = s.tours@[v];
+    lemma_vehicle_ok_facts(s, v);
     assert(vs.contains(v));
     let j = choose|j: int| 0 <= j < vs.len() && vs[j] == v;
     lemma_tour_cost_le(s.tours@, vs, j, vs.len() as int);
@@ -324,6 +337,14 @@ pub proof fn lemma_rd_all_ok(s: &Schedule, v: VehicleIdx)
         s.all_ok(s.train_formations@, Some(v), None::<Vehicle>, s.tours@[v].nodes@, s.tours@[v].nodes@.len() as int),
 {
     lemma_rd_provider(s, v);
+    lemma_rd_all_ok_0(s, v);
+}
+pub proof fn lemma_rd_all_ok_0(s: &Schedule, v: VehicleIdx)
+    requires s.formations_ok(), s.tours@.contains_key(v), s.tours@[v].wf(), !s.tours@[v].is_dummy, *s.tours@[v].network == *s.network, !s.sp_is_dummy(v),
+    ensures
+        s.shrinks(Some(v), None::<Vehicle>),
+        s.all_ok(s.train_formations@, Some(v), None::<Vehicle>, s.tours@[v].nodes@, s.tours@[v].nodes@.len() as int),
+{
     let t = s.tours@[v];
     let moved = t.nodes@;
     let rv: Option<Vehicle> = None;
@@ -364,7 +385,7 @@ pub proof fn lemma_rd_setup(s: &Schedule, v: VehicleIdx)
         usage_exact_for(s.depot_usage@, &s.network, s.vehicles@, s.tours@, v),
         usage_exact(s.depot_usage@, &s.network, s.vehicles@, s.tours@),
         sorted_cmp(s.dummy_ids_sorted@),
-        s.ids_ok(),
+        s.ids_ok(), s.transitions_ok(), s.next_period_transitions@.contains_key(s.type_of(v)),
         // the listing of the vehicle's type: the search finds the id
         s.vehicle_ids_grouped_and_sorted@.contains_key(s.type_of(v)),
         sorted_cmp(s.listing(s.type_of(v))),
@@ -448,7 +469,10 @@ pub proof fn lemma_rd_transitions(s: &Schedule, v: VehicleIdx, trs1: Map<Vehicle
 /// the precondition of the rotation-cycle update for one vehicle that goes
 pub proof fn lemma_rd_upd_pre(s: &Schedule, v: VehicleIdx, vehicles1: VehicleMap, tours1: TourMap)
     requires
-        s.rs_ok(), s.vehicles@.contains_key(v),
+        // (not rs_ok: sched_ok says that every vehicle in a rotation cycle has a tour and every vehicle with a tour is in a
+        // rotation cycle, which the solver can unfold for ever)
+        s.transitions_ok(), s.ids_ok(), s.vehicles@.contains_key(v),
+        s.next_period_transitions@.contains_key(s.type_of(v)),
         vehicles1 == s.vehicles@.remove(v),
         tours1 == s.tours@.remove(v),
     ensures
@@ -458,22 +482,10 @@ pub proof fn lemma_rd_upd_pre(s: &Schedule, v: VehicleIdx, vehicles1: VehicleMap
         forall|cv: Seq<VehicleIdx>, vt: VehicleTypeIdx| cv.len() == 1 && cv[0] == v && vt != s.type_of(v)
             ==> !#[trigger] s.touches_type(vehicles1, cv, vt),
 {
-    lemma_rd_provider(s, v);
-    let trs = s.next_period_transitions@;
+    lemma_rd_upd_pre_0(s, v, vehicles1, tours1);
     assert forall|cv: Seq<VehicleIdx>| cv.len() == 1 && cv[0] == v
-        implies #[trigger] s.upd_pre(trs, s.maintenance_violation as int, cv, vehicles1, tours1) by {
+        implies #[trigger] s.upd_pre(s.next_period_transitions@, s.maintenance_violation as int, cv, vehicles1, tours1) by {
         assert(cv =~= seq![v]);
-        assert(s.eff_type(vehicles1, v) == s.type_of(v));
-        assert(s.change_ok(trs, vehicles1, tours1, v));
-        assert forall|i: int| 0 <= i < cv.len() && (#[trigger] cv[i]) is Vehicle implies s.change_ok(trs, vehicles1, tours1, cv[i]) by {
-            assert(cv[i] == v);
-        }
-        assert(real_in(cv, v)) by { assert(cv[0] == v); }
-        assert forall|u: VehicleIdx| !real_in(cv, u) implies (s.vehicles@.contains_key(u) <==> #[trigger] vehicles1.contains_key(u)) by {}
-        assert forall|u: VehicleIdx| !real_in(cv, u) && #[trigger] vehicles1.contains_key(u) implies tours1.contains_key(u) && tours1[u] == s.tours@[u] by {
-            assert(s.vehicles@.contains_key(u));
-            assert(s.tours@.contains_key(u));
-        }
     }
     assert forall|cv: Seq<VehicleIdx>, vt: VehicleTypeIdx| cv.len() == 1 && cv[0] == v && vt != s.type_of(v)
         implies !#[trigger] s.touches_type(vehicles1, cv, vt) by {
@@ -481,6 +493,30 @@ pub proof fn lemma_rd_upd_pre(s: &Schedule, v: VehicleIdx, vehicles1: VehicleMap
             let i = choose|i: int| 0 <= i < cv.len() && (#[trigger] cv[i]) is Vehicle && s.eff_type(vehicles1, cv[i]) == vt;
             assert(cv[i] == v);
         }
+    }
+}
+pub proof fn lemma_rd_upd_pre_0(s: &Schedule, v: VehicleIdx, vehicles1: VehicleMap, tours1: TourMap)
+    requires
+        s.transitions_ok(), s.ids_ok(), s.vehicles@.contains_key(v),
+        s.next_period_transitions@.contains_key(s.type_of(v)),
+        vehicles1 == s.vehicles@.remove(v),
+        tours1 == s.tours@.remove(v),
+    ensures
+        s.upd_pre(s.next_period_transitions@, s.maintenance_violation as int, seq![v], vehicles1, tours1),
+{
+    let trs = s.next_period_transitions@;
+    let cv = seq![v];
+    assert(cv.len() == 1 && cv[0] == v);
+    assert(s.eff_type(vehicles1, v) == s.type_of(v));
+    assert(s.change_ok(trs, vehicles1, tours1, v));
+    assert forall|i: int| 0 <= i < cv.len() && (#[trigger] cv[i]) is Vehicle implies s.change_ok(trs, vehicles1, tours1, cv[i]) by {
+        assert(cv[i] == v);
+    }
+    assert(real_in(cv, v)) by { assert(cv[0] == v); }
+    assert forall|u: VehicleIdx| !real_in(cv, u) implies (s.vehicles@.contains_key(u) <==> #[trigger] vehicles1.contains_key(u)) by {}
+    assert forall|u: VehicleIdx| !real_in(cv, u) && #[trigger] vehicles1.contains_key(u) implies tours1.contains_key(u) && tours1[u] == s.tours@[u] by {
+        assert(s.vehicles@.contains_key(u));
+        assert(s.tours@.contains_key(u));
     }
 }
 
